@@ -95,4 +95,168 @@ theorem xpack_ipv6_icmp6_valid (cfg : XCfg) (e : Eth) (h : IPv6) (i : Icmp) (b :
     rw [e1, f1, f2, hz, hseg, be16, beDec_beEnc 2 _ hlt]
     rfl
 
+/-- **TCP over IPv6, whole frame** -/
+theorem xpack_ipv6_tcp_valid (cfg : XCfg) (e : Eth) (h : IPv6) (t : Tcp) (b : Bytes) (he : e.Fits) (hf : h.Fits)
+    (ht : t.Fits) (hok : ∀ o ∈ t.opts, o.OK) (hol : (optsPadded t.opts).length ≤ 40)
+    (hn : 20 + (optsPadded t.opts).length + b.length < 65536) :
+    ∃ ip6 seg, xpack cfg none (.eth e (.ipv6 h (.tcp t (.raw b)))) = .ok (ethBytes e ++ (ip6 ++ seg)) ∧ ip6.length = 40 ∧
+      beDec (sl ip6 4 6) = seg.length ∧
+      beDec (sl seg 16 18) = rfc1071 (pseudo6 (sl ip6 8 24) (sl ip6 24 40) seg.length (beDec (sl ip6 6 7)) ++ zeroWord 8 seg) := by
+  generalize hop : optsPadded t.opts = op at *
+  have hcs : tcp6CsumSpec h.src h.dst h.nh t op b < 65536 := rfc1071_lt _
+  have hres := tcpHdr6_ok h.src h.dst h.nh t op b hf.src hf.dst hf.nh ht (by rw [← hop]; exact tcpOptsPadded_ok t.opts hok)
+    hol (by omega)
+  have hseg : (tcpPre t ((20 + op.length) / 4) ++ (be16 (tcp6CsumSpec h.src h.dst h.nh t op b) ++ (be16 t.urg ++ op)) ++ b).length
+      = 20 + op.length + b.length := by simp [tcpPre_length]; omega
+  obtain ⟨f1, f2, f3⟩ := ipv6_wire_fields h (20 + op.length + b.length) hf
+  refine ⟨ipv6Bytes h (20 + op.length + b.length),
+    tcpPre t ((20 + op.length) / 4) ++ (be16 (tcp6CsumSpec h.src h.dst h.nh t op b) ++ (be16 t.urg ++ op)) ++ b, ?_,
+    ipv6Bytes_length h _ hf, ?_, ?_⟩
+  · simp only [xpack, xpackU, hres, bind, Except.bind, pure, Except.pure]
+    rw [hseg]
+    simp only [ipv6Hdr_ok h (20 + op.length + b.length) hf hn, ethHdr_ok e he]
+  · rw [ipv6_len_field h _ hn, hseg]
+  · have e1 : sl (tcpPre t ((20 + op.length) / 4) ++ (be16 (tcp6CsumSpec h.src h.dst h.nh t op b) ++ (be16 t.urg ++ op)) ++ b) 16 18
+        = be16 (tcp6CsumSpec h.src h.dst h.nh t op b) := by
+      simp only [List.append_assoc]
+      exact sl_mid _ _ _ 16 18 (by rw [tcpPre_length]) (by rw [tcpPre_length, be16_length])
+    have hz : zeroWord 8 (tcpPre t ((20 + op.length) / 4) ++ (be16 (tcp6CsumSpec h.src h.dst h.nh t op b) ++ (be16 t.urg ++ op)) ++ b)
+        = tcpPre t ((20 + op.length) / 4) ++ 0 :: 0 :: (be16 t.urg ++ (op ++ b)) := by
+      rw [be16_eq _ hcs]
+      simp only [List.append_assoc, List.cons_append, List.nil_append]
+      exact zeroWord_at 8 _ _ _ _ (by rw [tcpPre_length])
+    have hlt : tcp6CsumSpec h.src h.dst h.nh t op b < 256 ^ 2 := hcs
+    rw [e1, f1, f2, f3, hz, hseg, be16, beDec_beEnc 2 _ hlt]
+    rfl
+
+/-! ## `hdr` is idempotent on what `parse` returns (phase-2 classes) -/
+
+theorem ipv6Hdr_idem (h : IPv6) (n m : Nat) : ipv6Hdr { h with plen := m } n = ipv6Hdr h n := by
+  simp [ipv6Hdr]
+
+theorem icmp6Hdr_idem (s d : Bytes) (h : Icmp) (c : Nat) (p : Bytes) : icmp6Hdr s d { h with csum := c } p = icmp6Hdr s d h p := by
+  simp [icmp6Hdr]
+
+theorem igmpHdr_idem (h : Igmp) (c : Nat) : igmpHdr { h with csum := c } = igmpHdr h := by
+  unfold igmpHdr
+  by_cases hv : h.vt = 0x22
+  · simp [hv]
+  · simp only [hv, if_false]
+
+/-- re-serialising a parsed GRE header: the stored checksum is emitted as is, and `hdr`'s own assertion
+(`checksum(r + payload) == 0`) holds -/
+theorem greHdr_idem (h : Gre) (payload : Bytes) (hf : h.Fits) (hn : payload.length + 16 ≤ 131072) :
+    greHdr { h with csum := if h.csum = .absent then .absent else .val (greCsumSpec h payload) } payload
+      = .ok ({ h with csum := if h.csum = .absent then .absent else .val (greCsumSpec h payload) }, greBytes h payload) := by
+  rcases hf.csum with hc | hc
+  · have := greHdr_ok h payload hf hn
+    simp only [hc, if_true] at this ⊢
+    have hh : ({ h with csum := GreCsum.absent } : Gre) = h := by cases h; simp_all
+    rw [hh] at this ⊢
+    exact this
+  · have hfl := greFlags_lt h
+    have hk := optU32_ok h.key hf.key
+    have hs := optU32_ok h.seq hf.seq
+    have hne : ¬ (h.csum = GreCsum.absent) := by rw [hc]; simp
+    have hflags : (if (GreCsum.val (greCsumSpec h payload)) = GreCsum.absent then 0 else 0x8000) +
+        (if h.key.isSome then 0x2000 else 0) + (if h.seq.isSome then 0x1000 else 0) + (if h.ssr then 0x800 else 0) +
+        ((h.recursion / 256) % 8) * 65536 = greFlags h := by
+      rw [hf.recursion]; simp [greFlags, hc]
+    have ea : pk [.uint 2, .uint 2] [.num (greFlags h), .num h.type] = .ok (be16 (greFlags h) ++ be16 h.type) := by
+      simp [pk, encode, be16, hfl, hf.type]
+    have hcs : greCsumSpec h payload < 65536 := rfc1071_lt _
+    have ec : pk [.uint 2, .uint 2] [.num (greCsumSpec h payload), .num h.routeOffset]
+        = .ok (be16 (greCsumSpec h payload) ++ be16 h.routeOffset) := by
+      simp [pk, encode, be16, hcs, hf.routeOffset]
+    have hbytes : be16 (greFlags h) ++ be16 h.type ++ (be16 (greCsumSpec h payload) ++ be16 h.routeOffset ++ (greOpt h.key ++ greOpt h.seq))
+        = greBytes h payload := by
+      simp [greBytes, hc, greTail, List.append_assoc]
+    have hlen : (greBytes h payload ++ payload).length ≤ 131072 := by
+      rw [← hbytes]; simp [greOpt_length]; split <;> split <;> omega
+    have hver : checksum (greBytes h payload ++ payload) 0 none = 0 := by
+      rw [checksum_eq _ hlen]; exact gre_verifies h payload hc
+    unfold greHdr
+    simp only [hne, if_false, hflags, ea, ec, hk, hs, bind, Except.bind, pure, Except.pure, hbytes, hver, if_true]
+
+/-! ## a composed phase-2 frame: Ethernet / IPv4 / UDP(4789) / VXLAN / Ethernet / ARP -/
+
+theorem xparse_vxlan_step (cfg : XCfg) (f : Nat) (ctx : Option XCtx) (raw : Bytes) :
+    xparse cfg (f + 1) ctx .vxlan raw = vxlanParse (xparse cfg f) raw := rfl
+
+theorem xparse_arp_step (cfg : XCfg) (f : Nat) (ctx : Option XCtx) (raw : Bytes) :
+    xparse cfg (f + 1) ctx (.core .arp) raw = lift (contOf (xparse cfg f)) (arpParse raw) := rfl
+
+/-- **VXLAN-encapsulated ARP, whole frame.**  For every outer Ethernet/IPv4/UDP (destination port 4789) header, VXLAN
+header, inner Ethernet header (EtherType ARP), ARP body and trailing padding, all fields in range: `pack()` succeeds,
+`ethernet(raw = bytes)` returns the six-layer chain with the same fields (IPv4 total length / checksum and UDP length /
+checksum as `hdr` computed them), and packing that again reproduces the bytes. -/
+theorem vxlan_arp_frame (cfg : XCfg) (e1 : Eth) (ip : IPv4) (u : Udp) (vx : Vxlan) (e2 : Eth) (a : Arp) (pad : Bytes)
+    (he1 : e1.Fits) (ht1 : e1.type = 0x0800) (hip : ip.Fits) (hfr : ip.frag = 0) (hpr : ip.proto = 17) (hu : u.Fits)
+    (hsel : udpSel u = some "vxlan") (hvx : vx.Fits) (he2 : e2.Fits) (ht2 : e2.type = 0x0806) (ha : a.Fits)
+    (hsz : 4 * ip.hl + 58 + pad.length < 65536) :
+    ∃ ip' u' bs,
+      xpack cfg none (.eth e1 (.ipv4 ip (.udp u (.vxlan vx (.eth e2 (.arp a (.raw pad))))))) = .ok bs ∧
+      xparseTop cfg (.core .eth) bs = .eth e1 (.ipv4 ip' (.udp u' (.vxlan vx (.eth e2 (.arp a (.raw pad)))))) ∧
+      xpack cfg none (.eth e1 (.ipv4 ip' (.udp u' (.vxlan vx (.eth e2 (.arp a (.raw pad))))))) = .ok bs := by
+  obtain ⟨ab, hab, habl, hap⟩ := arp_parse a pad ha
+  have hc : IPCtx.Fits ⟨ip.src, ip.dst, ip.proto⟩ := ⟨hip.src, hip.dst, hip.proto⟩
+  generalize hcd : (⟨ip.src, ip.dst, ip.proto⟩ : IPCtx) = c at hc
+  obtain ⟨inner, hid⟩ : ∃ x, x = ethBytes e2 ++ (ab ++ pad) := ⟨_, rfl⟩
+  obtain ⟨vxl, hvd⟩ : ∃ x, x = vxlanBytes vx ++ inner := ⟨_, rfl⟩
+  obtain ⟨seg, hsd⟩ : ∃ x, x = udpBytes c u vxl ++ vxl := ⟨_, rfl⟩
+  have hinner : inner.length = 42 + pad.length := by rw [hid]; simp [ethBytes_length e2 he2, habl]; omega
+  have hvxl : vxl.length = 50 + pad.length := by rw [hvd]; simp [vxlanBytes_length, hinner]; omega
+  have hseg : seg.length = 58 + pad.length := by rw [hsd]; simp [udpBytes_length, hvxl]; omega
+  have hun : vxl.length + 8 < 65536 := by have := hip.hl5; omega
+  have hipn : ip.hl * 4 + seg.length < 65536 := by omega
+  have hudp := udpHdr_ok c u vxl hc hu hun
+  have hiph := ipv4Hdr_ok ip seg.length hip hipn
+  -- pack, layer by layer
+  have hx1 : xpackU cfg none (.eth e2 (.arp a (.raw pad))) = .ok (.eth e2 (.arp a (.raw pad)), inner) := by
+    simp [xpackU, hab, ethHdr_ok e2 he2, bind, Except.bind, pure, Except.pure, hid]
+  have hx2 : xpackU cfg none (.vxlan vx (.eth e2 (.arp a (.raw pad))))
+      = .ok (.vxlan vx (.eth e2 (.arp a (.raw pad))), vxl) := by
+    rw [xpackU, hx1]
+    simp only [vxlanHdr_ok vx hvx, bind, Except.bind, pure, Except.pure, hvd]
+  have hx3 : ∀ (uu : Udp), udpHdr (some c) uu vxl = udpHdr (some c) u vxl →
+      xpackU cfg (some (.v4 c)) (.udp uu (.vxlan vx (.eth e2 (.arp a (.raw pad)))))
+      = .ok (.udp (udpUpd c u vxl) (.vxlan vx (.eth e2 (.arp a (.raw pad)))), seg) := by
+    intro uu huu
+    rw [xpackU, hx2]
+    simp only [ipCtxOf, huu, hudp, bind, Except.bind, pure, Except.pure, hsd]
+  have hx4 : ∀ (ii : IPv4) (uu : Udp), ii.src = ip.src → ii.dst = ip.dst → ii.proto = ip.proto →
+      ipv4Hdr ii seg.length = ipv4Hdr ip seg.length → udpHdr (some c) uu vxl = udpHdr (some c) u vxl →
+      xpack cfg none (.eth e1 (.ipv4 ii (.udp uu (.vxlan vx (.eth e2 (.arp a (.raw pad)))))))
+      = .ok (ethBytes e1 ++ (ipv4Bytes ip seg.length ++ seg)) := by
+    intro ii uu h1 h2 h3 hii huu
+    have hctx : (⟨ii.src, ii.dst, ii.proto⟩ : IPCtx) = c := by rw [h1, h2, h3, hcd]
+    unfold xpack
+    rw [xpackU, xpackU, hctx, hx3 uu huu]
+    simp only [hii, hiph, ethHdr_ok e1 he1, bind, Except.bind, pure, Except.pure]
+  refine ⟨ipv4Upd ip seg.length, udpUpd c u vxl, ethBytes e1 ++ (ipv4Bytes ip seg.length ++ seg), ?_, ?_, ?_⟩
+  · exact hx4 ip u rfl rfl rfl rfl rfl
+  · have hflen : (ethBytes e1 ++ (ipv4Bytes ip seg.length ++ seg)).length + 1 = (4 * ip.hl + 67 + pad.length) + 1 + 1 + 1 + 1 + 1 + 1 := by
+      simp only [List.length_append, ethBytes_length e1 he1, ipv4Bytes_length ip _ hip, hseg]; omega
+    unfold xparseTop
+    rw [hflen, xparse_eth cfg _ none e1 _ he1]
+    have s1 : xEthNext (xparse cfg (4 * ip.hl + 67 + pad.length + 1 + 1 + 1 + 1 + 1)) e1.type (ipv4Bytes ip seg.length ++ seg)
+        = xparse cfg (4 * ip.hl + 67 + pad.length + 1 + 1 + 1 + 1 + 1) none (.core .ipv4) (ipv4Bytes ip seg.length ++ seg) := by
+      simp [xEthNext, ht1]
+    rw [s1, xparse_ipv4 cfg _ none ip seg hip hipn]
+    have s2 : xparse cfg (4 * ip.hl + 67 + pad.length + 1 + 1 + 1 + 1) none (.core .udp) seg
+        = .udp (udpUpd c u vxl) (.vxlan vx (.eth e2 (.arp a (.raw pad)))) := by
+      rw [hsd, xparse_udp cfg _ none c u vxl hu hun]
+      simp only [hsel]
+      have s3 : contOf (xparse cfg (4 * ip.hl + 67 + pad.length + 1 + 1 + 1)) "vxlan" vxl
+          = xparse cfg (4 * ip.hl + 67 + pad.length + 1 + 1 + 1) none .vxlan vxl := by simp [contOf]
+      rw [s3, xparse_vxlan_step, hvd, vxlan_parse _ vx inner hvx, hid, xparse_eth cfg _ none e2 _ he2]
+      have s4 : xEthNext (xparse cfg (4 * ip.hl + 67 + pad.length + 1)) e2.type (ab ++ pad)
+          = xparse cfg (4 * ip.hl + 67 + pad.length + 1) none (.core .arp) (ab ++ pad) := by
+        simp [xEthNext, ht2]
+      rw [s4, xparse_arp_step, hap]
+      simp [lift]
+    simp only [xIp4Next, hfr, hpr, s2]
+    simp [isUnparsedX]
+  · exact hx4 (ipv4Upd ip seg.length) (udpUpd c u vxl) rfl rfl rfl (ipv4Hdr_idem ip _ _) (udpHdr_idem _ c u vxl vxl)
+
 end Pox.Packet
